@@ -7,6 +7,7 @@ use core::arch::x86_64::*;
 mod sse;
 mod uf {
     pub fn sqrt_f32(x: f32) -> f32 { x.sqrt() }
+    pub fn hv_sqrt_f32(x: f32) -> f32 { x.sqrt() }
     pub fn uadd_f32(a: f32, b: f32) -> f32 { a + b }
     pub fn usub_f32(a: f32, b: f32) -> f32 { a - b }
     pub fn umul_f32(a: f32, b: f32) -> f32 { a * b }
